@@ -43,7 +43,8 @@ def program_strategy_c(draw, cfg, cache):
         host = draw(st.sampled_from(hosts + [bn] if bn in hosts else hosts))
         body = prog['root'] if host == 'root' else prog['funcs'][host]['body']
         if draw(st.sampled_from(range(4))) == 0:
-            q = ['q', 'exists', draw(st.sampled_from(cfg['universe'])), 'METADATA']
+            masked = set(gen.cache_ancestors(cache))
+            q = ['q', 'exists', draw(st.sampled_from([u for u in cfg['universe'] if u not in masked])), 'METADATA']
             dup = ['if', q, [dup], []] if draw(st.booleans()) else ['if', q, [], [dup]]
         body.insert(draw(st.integers(0, len(body))), dup)
     return prog
